@@ -306,9 +306,16 @@ def c11_oracle(payload):
             s4 = copy.deepcopy(spec); s4['media'] = [dict(perm=med[0]['perm'], cond=1.0, height=0.0, coord=None)]
             gi = pattern(si)
             prev = None
+            mlad = gen.build(s4); mlad.compute()
             for cond in (1e2, 1e5, 1e8, 1e12):
                 s4['media'][0]['cond'] = cond
                 gc = pattern(s4)
+                # the same study on ONE solved object whose ground constants are changed in place
+                mlad.media[0].conductivity = cond
+                mlad.compute_far_field(Angle(*zen), Angle(*azi)); gl = np.array(mlad.far_field.gain)
+                if _mx(np.abs(gl[gc > -100] - gc[gc > -100])) > 1e-9:
+                    bad.append('far field after changing the conductivity of the ground of a solved object to %g differs from a fresh object by %.3g dB'
+                               % (cond, _mx(np.abs(gl[gc > -100] - gc[gc > -100]))))
                 msk = gi > gi.max() - 40
                 dev = _mx(np.abs(gc[msk] - gi[msk]))
                 if prev is not None and dev > prev * 1.01 + 1e-9:
